@@ -28,16 +28,16 @@
          'claims':'overrun_copy (n >= 1, source at least one word behind the destination or in another object) writes at most [d,d+align(n)), reads at most [s,s+align(n)), returns d+n and the first n bytes have byte-serial copy semantics'}@*/
 /*@unit {'name':'c14_fast_copy', 'props':['C14'], 'loop_contracts':False, 'entry':'h_copy', 'enforce':'fast_copy', 'kind':'bounded', 'unwind':10, 'bound':'n <= 40 bytes in a 48-byte object',
          'claims':'fast_copy (non-overlapping) writes exactly [d,d+n), reads exactly [s,s+n), returns d+n, d[i] = s[i]'}@*/
-/*@unit {'name':'c14_lz4_safety', 'props':['C14'], 'entry':'h_lz4', 'enforce':'lz4_decompress', 'replace':['read_sequence','overrun_copy','safe_copy','fast_copy'], 'min_loops':1, 'defines':['LOOP_CONTRACTS','COPY_STUBS_DO_NOT_WRITE'], 'cost':60,
+/*@unit {'name':'c14_lz4_safety', 'props':['C14'], 'entry':'h_lz4', 'enforce':'lz4_decompress', 'replace':['read_sequence','overrun_copy','safe_copy','fast_copy'], 'min_loops':1, 'defines':['LOOP_CONTRACTS','COPY_STUBS_DO_NOT_WRITE','GHOST_PROTOCOL'], 'cost':60,
          'replay':'c14_lz4', 'witness_defines':['WITNESS'], 'witness_vars':['w_in_n','w_out_n','w_b'],
          'claims':'lz4::decompress on arbitrary input bytes: every read lies in [in,in+in_size), every write in [out,out+out_size) (the bounds the copy primitives need - word overrun included - follow from the tests in the loop), the result is -1 or a length <= out_size, blocks that do not shrink the data are refused, and the main loop terminates (each sequence consumes input)'}@*/
-/*@unit {'name':'c14_lz4_ref_sound', 'props':['C14'], 'entry':'h_lz4_ref', 'kind':'bounded', 'loop_contracts':False, 'unwind':26, 'unwindset':['h_lz4_ref.0:26','h_lz4_ref.1:26','lz4_decompress.0:9','fast_copy.0:5','safe_copy.0:26','read_literal.0:24','lz4_ref.0:10','lz4_ref.1:24','lz4_ref.2:24','lz4_ref.3:26','lz4_ref.4:26','overrun_copy.0:5'], 'object_bits':12, 'defines':['REF_SOUND'], 'cost':80, 'timeout':1500,
-         'bound':'out_size <= 24 bytes, 13 <= in_size < out_size, arbitrary input bytes',
-         'replay':'c14_lz4', 'witness_defines':['REF_SOUND','WITNESS'], 'witness_vars':['w_in_n','w_out_n','w_b'],
+/*@unit {'name':'c14_lz4_ref_sound', 'props':['C14'], 'entry':'h_lz4_ref', 'kind':'bounded', 'loop_contracts':False, 'unwind':18, 'unwindset':['h_lz4_ref.0:18','h_lz4_ref.1:18','lz4_decompress.0:5','fast_copy.0:4','safe_copy.0:18','read_literal.0:16','lz4_ref.0:9','lz4_ref.1:16','lz4_ref.2:16','lz4_ref.3:18','lz4_ref.4:18','overrun_copy.0:4'], 'object_bits':12, 'defines':['REF_SOUND','REF_OUT=16'], 'cost':80, 'timeout':900,
+         'bound':'out_size <= 16 bytes, 13 <= in_size < out_size, arbitrary input bytes',
+         'replay':'c14_lz4', 'witness_defines':['REF_SOUND','REF_OUT=16','WITNESS'], 'witness_vars':['w_in_n','w_out_n','w_b'],
          'claims':'whole blocks, all code inlined (no contracts): when lz4::decompress returns n >= 0 the reference decoder (prefix mode) produces exactly n bytes and they are equal, byte for byte; no read outside the input, no write outside the announced output (exact-size buffers)'}@*/
-/*@unit {'name':'c14_lz4_ref_complete', 'props':['C14'], 'entry':'h_lz4_ref', 'kind':'bounded', 'loop_contracts':False, 'unwind':26, 'unwindset':['h_lz4_ref.0:26','h_lz4_ref.1:26','lz4_decompress.0:9','fast_copy.0:5','safe_copy.0:26','read_literal.0:24','lz4_ref.0:10','lz4_ref.1:24','lz4_ref.2:24','lz4_ref.3:26','lz4_ref.4:26','overrun_copy.0:5'], 'object_bits':12, 'defines':['REF_COMPLETE'], 'cost':80, 'timeout':1500,
-         'bound':'out_size <= 24 bytes, 13 <= in_size < out_size',
-         'replay':'c14_lz4', 'witness_defines':['REF_COMPLETE','WITNESS'], 'witness_vars':['w_in_n','w_out_n','w_b'],
+/*@unit {'name':'c14_lz4_ref_complete', 'props':['C14'], 'entry':'h_lz4_ref', 'kind':'bounded', 'loop_contracts':False, 'unwind':18, 'unwindset':['h_lz4_ref.0:18','h_lz4_ref.1:18','lz4_decompress.0:5','fast_copy.0:4','safe_copy.0:18','read_literal.0:16','lz4_ref.0:9','lz4_ref.1:16','lz4_ref.2:16','lz4_ref.3:18','lz4_ref.4:18','overrun_copy.0:4'], 'object_bits':12, 'defines':['REF_COMPLETE','REF_OUT=16'], 'cost':80, 'timeout':900,
+         'bound':'out_size <= 16 bytes, 13 <= in_size < out_size',
+         'replay':'c14_lz4', 'witness_defines':['REF_COMPLETE','REF_OUT=16','WITNESS'], 'witness_vars':['w_in_n','w_out_n','w_b'],
          'claims':'every valid encoding decodes: whenever the strict reference decoder accepts a block (>= 13 bytes, shorter than its plaintext, last 5 bytes literals) with exactly out_size bytes, lz4::decompress returns out_size and the same bytes'}@*/
 
 /* ------------------------------------------------------------------ types and constants of Compression.h */
@@ -141,6 +141,13 @@ __CPROVER_assigns(COPY_FRAME(d, n))
 __CPROVER_ensures(__CPROVER_return_value == d + n)
 __CPROVER_ensures(g_k >= n || d[g_k] == g_old_sk);
 
+/* ghost state of the copy protocol (unit c14_lz4_safety, see below) */
+#ifdef GHOST_PROTOCOL
+int g_phase;            /* 0 parse next, 1 parsed (literals pending), 2 literals copied (match pending), 3 last sequence parsed, 4 done */
+size_t g_op;            /* bytes produced so far */
+const u8 *g_lit; u32 g_ll, g_ml, g_dist; size_t g_nseq;
+#define LZ4_GHOST_FRAME , g_phase, g_op, g_lit, g_ll, g_ml, g_dist, g_nseq
+#endif
 /*@include lz4_contract.tc@*/
 
 /* ------------------------------------------------------------------ extracted code */
@@ -171,13 +178,59 @@ __CPROVER_ensures(g_k >= n || d[g_k] == g_old_sk);
    'subs':[[r'read_literal\(src, end,', 'read_literal(&src, end,', 0]],
    'refs':['src','literal','literal_len','match_len','match_dist']}@*/
 
+/* ---- ghost protocol of unit c14_lz4_safety ("glue exactness"): lz4::decompress executes exactly the copy program of the
+   parsed sequences.  The reference semantics of a block is the sequence of copy operations
+        for each sequence:  out[op..op+ll) := literals ;  out[op..op+ml) := out[op-dist..)  (byte-serial, 1 <= dist <= op)
+        last sequence:      out[op..op+ll) := literals
+   each starting where the previous one ended.  The wrappers below (spec code) check every copy the decoder issues against
+   the values read_sequence returned, in order; together with the contracts of read_sequence (what the values are, all
+   sizes) and of the copy primitives (byte-serial semantics, bounded units) this is the decoder's exactness, decomposed. */
+#ifdef GHOST_PROTOCOL
+static bool read_sequence_g(u8 const **src, u8 const *const end, u8 const **literal, u32 *literal_len, u32 *match_len, u32 *match_dist)
+{
+    __CPROVER_assert(g_phase == 0, "protocol: a sequence is parsed only after the previous one was copied completely");
+    bool r = read_sequence(src, end, literal, literal_len, match_len, match_dist);
+    g_lit = *literal; g_ll = *literal_len; g_ml = *match_len; g_dist = *match_dist; g_phase = r ? 1 : 3;
+    return r;
+}
+static void ghost_copy(u8 *d, u8 const *s, size_t n)
+{
+    __CPROVER_assert(SAME(d, g_outp) && OFF(d) - g_out_lo == (long)g_op, "protocol: every copy starts where the previous one ended (contiguous output from out[0])");
+    if (g_phase == 1 && g_ll != 0) {
+        __CPROVER_assert(s == g_lit && n == g_ll, "protocol: literal copy = exactly the parsed literal run");
+        g_phase = 2;
+    } else if (g_phase == 1 || g_phase == 2) {
+        __CPROVER_assert(SAME(s, d) && g_dist >= 1 && (size_t)g_dist <= g_op && OFF(d) - OFF(s) == (long)g_dist && n == g_ml,
+                         "protocol: match copy = match_len bytes from match_dist back, inside the data produced so far");
+        g_phase = 0; g_nseq++;
+    } else if (g_phase == 3) {
+        __CPROVER_assert(s == g_lit && n == g_ll, "protocol: final literals = exactly the parsed literal run");
+        g_phase = 4;
+    } else
+        __CPROVER_assert(0, "protocol: copy issued outside a sequence");
+    g_op += n;
+}
+static u8 *overrun_copy_g(u8 *d, u8 const *s, size_t n) { ghost_copy(d, s, n); return overrun_copy(d, s, n); }
+static u8 *safe_copy_g(u8 *d, u8 const *s, size_t n) { ghost_copy(d, s, n); return safe_copy(d, s, n); }
+static u8 *fast_copy_g(u8 *d, u8 const *s, size_t n) { ghost_copy(d, s, n); return fast_copy(d, s, n); }
+#define GP(...) __VA_ARGS__
+#else
+#define read_sequence_g read_sequence
+#define overrun_copy_g overrun_copy
+#define safe_copy_g safe_copy
+#define fast_copy_g fast_copy
+#define GP(...)
+#endif
+
 /*@extract {'file':'src/Decompressor.cpp', 'sig': r'int lz4::decompress\(void const \*in, size_t in_size, void \*out, size_t out_size\)',
    'emit':'int lz4_decompress(void const *in, size_t in_size, void *out, size_t out_size)', 'casts': True,
-   'subs':[[r'read_sequence\(src, src_end, literal, literal_len, match_len,\s*match_dist\)', 'read_sequence(&src, src_end, &literal, &literal_len, &match_len, &match_dist)', 0]],
+   'subs':[[r'read_sequence\(src, src_end, literal, literal_len, match_len,\s*match_dist\)', 'read_sequence_g(&src, src_end, &literal, &literal_len, &match_len, &match_dist)', 0],
+           [r'\boverrun_copy\(', 'overrun_copy_g(', 0], [r'\bsafe_copy\(', 'safe_copy_g(', 0], [r'\bfast_copy\(', 'fast_copy_g(', 0]],
    'inserts':[[r'if \(out_size <= in_size', 'const size_t out_size0 = out_size; (void)out_size0;', 'before']],
-   'loops':{1: """LC(__CPROVER_assigns(src, literal, literal_len, match_len, match_dist, dst, out_size)
+   'loops':{1: """LC(__CPROVER_assigns(src, literal, literal_len, match_len, match_dist, dst, out_size GP(, g_phase, g_op, g_lit, g_ll, g_ml, g_dist, g_nseq))
                   __CPROVER_loop_invariant(SAME(src, in) && OFF(src) >= OFF(in) && OFF(src) < OFF(src_end))
                   __CPROVER_loop_invariant(SAME(dst, out) && out_size <= out_size0 && OFF(dst) - OFF(out) == (long)(out_size0 - out_size))
+                  GP(__CPROVER_loop_invariant(g_phase == 0 && g_op == out_size0 - out_size))
                   __CPROVER_decreases(OFF(src_end) - OFF(src)))"""}}@*/
 
 /* ------------------------------------------------------------------ harnesses */
@@ -313,8 +366,9 @@ void h_lz4(void)
     u8 w_b[WB]; FILL(buf + PAD, w_in_n);
 #endif
     g_in = buf + PAD; g_in_lo = (long)PAD; g_outp = out; g_out_lo = (long)PADO;
+    g_phase = 0; g_op = 0; g_nseq = 0;
     int r = lz4_decompress(buf + PAD, w_in_n, out, w_out_n);
-    (void)r;
+    if (r >= 0) __CPROVER_assert(g_phase == 4 && (size_t)r == g_op, "success: the block was decoded up to and including the final literals and the result is the number of bytes the copy program produced");
     CANARY();
 }
 #endif
@@ -328,6 +382,9 @@ void h_lz4_ref(void)
 {
     size_t w_in_n = nondet_size_t(), w_out_n = nondet_size_t();
     __CPROVER_assume(w_out_n <= REF_OUT && w_in_n >= 13 && w_in_n < w_out_n);
+#ifdef REF_IN
+    __CPROVER_assume(w_in_n == REF_IN && w_out_n == REF_OUT);
+#endif
     /* Constant-size objects (CBMC then needs no array theory); block and output are the LAST w_in_n / w_out_n bytes of
        their objects, so any access past the block or past the announced output leaves the object.  RPAD bytes precede the
        block so that `src_end - literal_len` keeps its flat-address-space meaning for every literal_len <= RPAD + in_size;
